@@ -33,6 +33,9 @@ func TestCheck(t *testing.T) {
 		sc := &scs[i]
 		sc.Fix()
 		res := sysrun.Run(t, sc)
+		if env.Replay != "" {
+			t.Log("\n" + res.Dump())
+		}
 		keys := make([]string, 0, len(res.Groups))
 		for k := range res.Groups {
 			keys = append(keys, k)
